@@ -115,6 +115,20 @@ func runC04(c *Ctx) {
 							continue
 						}
 					}
+					// the digits appended one per iteration to an empty slice: after k iterations it holds k digits, so at the reject
+					// (taken before that iteration's append) its length is the position of the bad character
+					built := "phi(concat(cycle, slice(obj(alloc<[1]uint8>, store(iaddr(self, 0), " + elem + ")), 0, none)), makeslice<[]uint8>(0, len(p1)))"
+					if w, _ := ana.Find(built, vt); w != nil && vt.Is("phi") && db.Root(e.Results[0]) == db.Root(w.V) {
+						apps := ana.CallsTo(decodeFn, "builtin.append")
+						okApp := len(apps) == 1 && len(l.Back) == 1 && l.Blocks[apps[0].Block()] && apps[0].Block().Dominates(l.Back[0].From)
+						if success {
+							r.Check(okApp && exitMustPass(decodeFn, e, []ana.Edge{{From: l.Header, To: l.Exit}}), "C04.charset.decode-values", c.ipos(e.Instr), "success: the digits decMap[src[i]] appended for every i in order to an empty slice")
+						} else {
+							es := edgesMatching(db, "bin<==>("+elem+", 255)")
+							r.Check(okApp && exitMustPass(decodeFn, e, plainEdges(es)), "C04.charset.decode-reject", c.ipos(e.Instr), "error only when the table yields the sentinel 0xFF; returns the digits appended so far (their count is the error offset)")
+						}
+						continue
+					}
 					if success {
 						_, ok := ana.Match("obj(makeslice<[]uint8>(len(p1), len(p1)), maybe(store(iaddr(self, "+idx+"), "+elem+")))", vt)
 						r.Check(ok && exitMustPass(decodeFn, e, []ana.Edge{{From: l.Header, To: l.Exit}}), "C04.charset.decode-values", c.ipos(e.Instr), "success: dst[i] = decMap[src[i]] for every i, len(dst) = len(src): %s", short(vt.String(), 200))
